@@ -1018,3 +1018,46 @@ Proof.
   - eexists. vm_compute. reflexivity.
 Qed.
 Print Assumptions ms_expression_newest_in_later_stack.
+
+(* ---- round 6: ONE Eups object serving several requests (Model/SetupSession.v).  The code after the repair of D63
+   empties alreadySetupProducts at the start of every top-level forward request; then nothing the object did
+   before can influence a request: *)
+From Eupsv Require Import Model.SetupSession Proofs.SetupSession Proofs.SetupSessionExample.
+
+(* the unsetup - at any depth, with any table - never reads alreadySetupProducts *)
+Theorem unsetup_never_reads_the_table :
+  forall vcmp vmatch fw cfg rc flavors fuel st al1 al2 vro name li depth just,
+    same_but_table (setup_full vcmp vmatch fw cfg rc flavors fuel st al1 vro name li false depth just)
+                   (setup_full vcmp vmatch fw cfg rc flavors fuel st al2 vro name li false depth just).
+Proof. intros. apply setup_full_unsetup_blind. Qed.
+Print Assumptions unsetup_never_reads_the_table.
+
+(* a request (setup or unsetup) on a long-lived object, whatever table the earlier requests left, answers like
+   the same request on a fresh object: success, environment, aliases and every version decided *)
+Theorem request_on_a_long_lived_instance_is_a_fresh_request :
+  forall vcmp vmatch fw cfg rc flavors fuel al st name version fwd just,
+    fst (instance_request vcmp vmatch fw cfg rc flavors true fuel al st name version fwd just)
+    = request_full vcmp vmatch fw cfg rc flavors fuel st name version fwd just.
+Proof. intros. apply instance_request_like_fresh. Qed.
+Print Assumptions request_on_a_long_lived_instance_is_a_fresh_request.
+
+(* so a whole session on one object is the sequence of requests the command line tool would run, each in a fresh
+   process from the environment the previous one left: every theorem above about request_full speaks about
+   every request of a session *)
+Theorem session_on_one_instance_is_memoryless :
+  forall vcmp vmatch fw cfg rc flavors fuel rqs al st,
+    session_run vcmp vmatch fw cfg rc flavors true fuel al st rqs = fresh_run vcmp vmatch fw cfg rc flavors fuel st rqs.
+Proof. intros. apply session_like_fresh. Qed.
+Print Assumptions session_on_one_instance_is_memoryless.
+
+(* D63, the code before the repair (reset = false): setup b 1.0; unsetup b; setup b on one object sets b 1.0 up
+   again although b 2.0 is current - the designation clause fails - and the repaired code sets up b 2.0 *)
+Example stale_table_top_level_refuted_pinned :
+  sx_decisions false = [Some [Some (lit "1.0")]; Some []; Some [Some (lit "1.0")]]
+  /\ session_run vcmp_simple vmatch_simple sx_fw ex_cfg default_config ex_flavors false 20 [] sx_st0 sx_requests
+     <> fresh_run vcmp_simple vmatch_simple sx_fw ex_cfg default_config ex_flavors 20 sx_st0 sx_requests.
+Proof. split; [vm_compute; reflexivity | vm_compute; discriminate]. Qed.
+
+Example stale_table_top_level_repaired :
+  sx_decisions true = [Some [Some (lit "1.0")]; Some []; Some [Some (lit "2.0")]].
+Proof. vm_compute. reflexivity. Qed.
